@@ -18,7 +18,7 @@ ID = 'C13'
 LEVEL = 'exploration'
 RUNS = {'quick': 16000, 'thorough': 300000}
 CHUNK = 40
-PROBES = ['empty_thread_map', 'process_of_thread_announced_in_stream', 'dump_cut_at_both_ends', 'class_filter_bsd', 'class_filter_non_bsd', 'bsd_subclass_filter', 'tid_filter', 'process_filter_name', 'process_filter_pid',
+PROBES = ['crossing_classes_on_one_thread', 'process_named_like_a_number', 'empty_thread_map', 'process_of_thread_announced_in_stream', 'dump_cut_at_both_ends', 'class_filter_bsd', 'class_filter_non_bsd', 'bsd_subclass_filter', 'tid_filter', 'process_filter_name', 'process_filter_pid',
           'helper_trace_class_hidden', 'helper_fs_class_hidden', 'helper_class_requested', 'repeat_request', 'callstacks_repeat',
           'kevents_after_traces', 'tuple_filter', 'images_announced_after_sample', 'combined_filters']
 RULE = ('one run = one long-lived PyKdebugParser and a history of 2..6 judged requests (traces, formatted_traces, callstacks, '
@@ -57,6 +57,8 @@ def _gen_filters(rng, dump):
         elif tm:
             t = rng.pick(tm)
             f['proc'] = t[2] if rng.chance(0.5) else str(t[1])
+            if f['proc'].isdigit() and rng.chance(0.25):
+                f['proc'] = rng.pick(['0' + f['proc'], '+' + f['proc'], ' ' + f['proc'], f['proc'] + ' '])    # int() accepts it; it is neither the name nor the pid text
             if 'tid' in f and (rng.chance(0.5) or dump.get('born')):
                 f.pop('tid')
     f['as_tuple'] = False    # traces() with tuple filters is exercised separately (probe tuple_filter)
@@ -113,6 +115,12 @@ def generate(rng, index, tier):
             th['ops'].append(worlds.op_sample(rng, thd=None, uhdr=(1, 3), udata=[[base + 5, base + 0x2000, 3, 4]]))
             th['ops'].append(worlds.op_imap(rng, rng.randbytes(16).hex(), base))
             d['late_image'] = True
+        # operations of different classes that overlap without nesting on one thread (START mach, START bsd, END mach, END bsd)
+        if rng.chance(0.3):
+            th = rng.pick(d['threads'])
+            for _c in range(rng.randint(1, 2)):
+                th['ops'].insert(rng.randrange(len(th['ops']) + 1), worlds.op_crossing(rng, None, rng.pick(['MSC_mach_vm_allocate_trap', 'MACH_vmfault', 'MSC_mach_reply_port', 'DBG_DYLD_TIMING_DLCLOSE']), rng.pick(['BSC_read', 'BSC_getpid', 'BSC_sys_close', 'BSC_write'])))
+            d['crossing'] = True
         # a thread born during the capture: not in the thread map, announced in-stream by another thread
         if len(d['threads']) >= 2 and rng.chance(0.4):
             born = d['threads'][-1]
@@ -333,6 +341,10 @@ def execute(scn):
                 bump('probe:dump_cut_at_both_ends')
             if not scn['dumps'][di]['writer'].get('tmap'):
                 bump('probe:empty_thread_map')
+            if scn['dumps'][di].get('crossing') and (cls or sub):
+                bump('probe:crossing_classes_on_one_thread')
+            if any(t[2].isdigit() for t in scn['dumps'][di]['writer'].get('tmap', [])) and cur.get('proc') is not None:
+                bump('probe:process_named_like_a_number')
             if sum(1 for k in ('tid', 'proc') if cur.get(k) is not None) + (1 if cls or sub else 0) >= 2:
                 bump('probe:combined_filters')
             if (cls or sub) and 7 not in cls and any(_first(t).eventid >> 24 == 7 for t, _s, _p in ref):
